@@ -779,12 +779,12 @@ def gen_cases(ctx, thorough):
             for o1, o2 in itertools.product(sel[:25], repeat=2):
                 cases.append((s, (o1, o2)))
     if thorough:
-        for s in [s for i, s in enumerate(starts) if i % 14 == 0]:
+        for s in [s for i, s in enumerate(starts) if i % 18 == 0]:
             for t in itertools.product(small[:20], repeat=3):
                 cases.append((s, t))
     n_exh = len(cases)
     rng = ctx.rng
-    for n in range(20000 if thorough else 2000):
+    for n in range(12000 if thorough else 2000):
         s = rng.choice(starts)
         sel = sel_alphabet(s)
         k = rng.randint(3, 7)
@@ -939,6 +939,7 @@ ASSUME = [
     "selectors detached from a sheet (_SimpleNamespaces) are outside the model",
     "direct assignment to CSSNamespaceRule.prefix of a rule inside a sheet is not an operation of the histories "
     "(the property quantifies over sheet.namespaces assignments/deletions and @namespace insertions)",
-    "view_matches_rules / reparse_same_pairs are proved for clean, spellable sheets; that every history keeps the "
-    "sheet clean and spellable is REFUTED (three open findings); see design_notes/C15.md",
+    "view_matches_rules_partial / reparse_same_pairs_partial are proved for clean, spellable sheets; that every history "
+    "keeps the sheet spellable is REFUTED (two open findings), that it keeps it clean is not proved (no counter-example "
+    "since fix a5cb308); see design_notes/C15.md",
 ]
